@@ -177,6 +177,41 @@ def run(ctx):
             meta.append(('clean', desc0, clean))
         except proto.ProtoError:
             pass
+        # the same request through a guard whose decisions are cached (the inquiry is hashed and compared before the guarded
+        # evaluation starts): asked twice, with the inquiry as generated and with a non-finite number in it - a boolean, the same one
+        if rng.random() < 0.3:
+            from vakt.cache import create_cached_guard
+            from vakt.guard import Inquiry
+            qs = [inq]
+            if isinstance(inq.context, dict):
+                nf = pick(rng, [float('inf'), float('-inf'), float('nan')])
+                where = rng.randrange(3)
+                try:
+                    if where == 0:
+                        qs.append(Inquiry(action=inq.action, resource=inq.resource, subject=inq.subject,
+                                          context=dict(inq.context, **{'zz-load': nf})))
+                    elif where == 1:
+                        qs.append(Inquiry(action=inq.action, resource=inq.resource, context=inq.context,
+                                          subject={'name': inq.subject, 'score': nf}))
+                    else:
+                        qs.append(Inquiry(action=inq.action, resource=[nf, inq.resource], subject=inq.subject,
+                                          context=inq.context))
+                except Exception:
+                    pass
+            for q in qs:
+                m_ = polcase.direct_matches(k, objs, q, [])
+                w_ = polcase.oracle_decision(objs, m_)
+                try:
+                    cg, _, _ = create_cached_guard(FaultStorage(objs, None, Exception), polcase.make_checker(k),
+                                                   maxsize=pick(rng, [1, 4, 256]))
+                    got = [cg.is_allowed(q), cg.is_allowed(q)]
+                except BaseException as e:  # noqa
+                    got = ['escaped:%s' % type(e).__name__]
+                out.evaluations += 1
+                out.count('cached-guard:' + ('as-generated' if q is inq else 'non-finite'))
+                if any(g is not w_ for g in got):
+                    fails.append(('asked twice through create_cached_guard with inquiry %r' % (q,), got,
+                                  'a boolean both times, the direct oracle says %s' % w_, 'cached-guard'))
         # (a) storage faults, every position
         modes = ['raise', 'none'] + [('iter', i) for i in range(len(objs) + 1)]
         for mode in modes:
@@ -430,7 +465,8 @@ def run(ctx):
     out.rule = ('base cases: generated stores (1-5 policies, all checkers, ill-typed inquiry fields / contexts); per base '
                 'case EVERY boundary is faulted once: storage raise, storage None, a raise before each yielded policy '
                 'and at the end of iteration, a raise at each reached checker.fits call (15 exception classes), plus '
-                'variants with a raising/junk context rule or a malformed pattern; non-trivial base case = >=2 fits '
+                'variants with a raising/junk context rule or a malformed pattern; 30% of the base cases also asked twice '
+                'through create_cached_guard, as generated and with inf/-inf/nan inside the inquiry; non-trivial base case = >=2 fits '
                 'calls reached or some policy raises naturally; traces_validated = fault placements also run through '
                 'the model')
     return out
